@@ -29,10 +29,11 @@ from . import model as M
 class Reject(Exception):
     """The reference semantics reject the input; `fault` names why."""
 
-    def __init__(self, fault, detail=''):
+    def __init__(self, fault, detail='', site=''):
         super().__init__(f'{fault} {detail}')
         self.fault = fault
         self.detail = detail
+        self.site = site or fault
 
 
 class Unsupported(Exception):
@@ -274,7 +275,7 @@ class Model:
                 bits += self.decls[f.type_id].width
             elif k == 'typedef':
                 td = self.decls[f.type_id]
-                if td.kind == 'enum':
+                if td.kind in ('enum', 'checksum'):
                     bits += td.width
                 else:
                     s = self.static_size(f.type_id, seen)
@@ -510,7 +511,7 @@ class Model:
                     sz = env[tgt]
                     if seg.modifier:
                         if sz < seg.modifier:
-                            raise Reject('length', f'{name} payload size below modifier')
+                            raise Reject('length', f'{name} payload size below modifier', 'payload_modifier')
                         sz = sz - seg.modifier
                     if len(buf) < sz:
                         raise Reject('length', f'{name} payload')
@@ -527,11 +528,31 @@ class Model:
                     buf = buf[n:]
             elif isinstance(seg, ArraySeg):
                 vals[seg.name], buf = self._decode_array(name, seg, env, buf)
-            elif isinstance(seg, (ChecksumStart, ChecksumValue)):
-                raise Unsupported('checksum')
+            elif isinstance(seg, ChecksumStart):
+                env['cs_start:' + seg.target] = buf
+            elif isinstance(seg, ChecksumValue):
+                start = env.get('cs_start:' + seg.name)
+                if start is None:
+                    raise Unsupported('checksum value before its start')
+                if len(buf) < seg.nbytes:
+                    raise Reject('length', f'{name}.{seg.name}')
+                covered = start[:len(start) - len(buf)]
+                v = self._uint(buf[:seg.nbytes])
+                buf = buf[seg.nbytes:]
+                if v != self.checksum(seg.decl, covered):
+                    raise Reject('checksum', f'{name}.{seg.name}')
+                vals[seg.name] = v
             else:
                 raise Unsupported(type(seg).__name__)
         return vals, buf
+
+    def checksum(self, decl, data):
+        """the stand-in checksum function (user code): sum of the octets modulo 2^width"""
+        w = self.decls[decl].width
+        total = 0
+        for x in data:
+            total = total + x
+        return total % (1 << w)
 
     def _decode_elem(self, name, seg, buf):
         kind = seg.elem[0]
@@ -570,7 +591,7 @@ class Model:
                     if len(buf) < total:
                         raise Reject('length', f'{name}.{seg.name}')
                 if es == 0:
-                    raise Reject('array_size', 'element size 0')
+                    raise Reject('array_size', 'element size 0', 'elemsize_zero')
                 if total % es != 0:
                     raise Reject('array_size', f'{name}.{seg.name}')
                 cnt = total // es
@@ -602,7 +623,7 @@ class Model:
                 mod = seg.shape[1]
                 if mod:
                     if sz < mod:
-                        raise Reject('length', f'{name}.{seg.name} size below modifier')
+                        raise Reject('length', f'{name}.{seg.name} size below modifier', 'array_modifier')
                     sz = sz - mod
                 if len(buf) < sz:
                     raise Reject('length', f'{name}.{seg.name}')
@@ -661,6 +682,7 @@ class Model:
         """bytes of the declaration's own fields. `payload`: byte list replacing
         vals['payload'] (child encoding)."""
         out = []
+        cs_start = 0
         plan = self.plans[name]
         if payload is None:
             payload = vals.get('payload', [])
@@ -719,6 +741,10 @@ class Model:
                     n += len(e)
                 if seg.padding is not None:
                     out.extend([0] * max(0, seg.padding - n))
+            elif isinstance(seg, ChecksumStart):
+                cs_start = len(out)
+            elif isinstance(seg, ChecksumValue):
+                out.extend(self._bytes_of(self.checksum(seg.decl, out[cs_start:]), seg.nbytes))
             else:
                 raise Unsupported(type(seg).__name__)
         return out
@@ -757,3 +783,99 @@ def _concrete_count(cnt, avail, seg, model):
     if isinstance(cnt, int):
         return cnt
     return cnt.__index__()
+
+
+# ------------------------------------------------------------------ size helpers (added to Model)
+def _min_len(self, name, _depth=0) -> int:
+    """smallest number of octets an accepted encoding of `name` can have"""
+    if _depth > 8:
+        return 0
+    total = 0
+    ch = self.chain(name)
+    for n in ch:
+        for seg in self.plans[n]:
+            if isinstance(seg, Chunk):
+                total += seg.nbytes
+            elif isinstance(seg, StructSeg):
+                total += self.min_len(seg.decl, _depth + 1)
+            elif isinstance(seg, CustomSeg):
+                total += seg.nbytes or 0
+            elif isinstance(seg, ArraySeg):
+                if seg.padding is not None:
+                    total += seg.padding
+                elif seg.shape[0] == 'static':
+                    e = seg.elem_static
+                    if e is None and seg.elem[0] == 'struct':
+                        e = self.min_len(seg.elem[1], _depth + 1)
+                    total += (e or 0) * seg.shape[1]
+            elif isinstance(seg, ChecksumValue):
+                total += seg.nbytes
+    return total
+
+
+def _size_faults(self, name, vals):
+    """faults of a value that depend only on lengths: size/count/element-size fields that
+    cannot express the value, arrays larger than their padding, static arrays of the wrong
+    length.  Lengths are concrete even when element values are symbolic."""
+    out = []
+    ch = self.chain(name)
+    payload_len = len(vals.get('payload', [])) if self.has_payload(name) else 0
+    for n in reversed(ch):
+        plan = self.plans[n]
+        enc = {}
+        for seg in plan:
+            if isinstance(seg, ArraySeg):
+                enc[seg.name] = [self._encode_elem(seg, v) for v in vals[seg.name]]
+                for v in vals[seg.name]:
+                    if seg.elem[0] == 'struct':
+                        out.extend(self.size_faults(seg.elem[1], v))
+                if seg.shape[0] == 'static' and len(vals[seg.name]) != seg.shape[1]:
+                    out.append(('static_count', n, seg.name))
+                tot = sum(len(e) for e in enc[seg.name])
+                if seg.padding is not None and tot > seg.padding:
+                    out.append(('padding', n, seg.name))
+                if seg.has_elemsize and any(len(e) != len(enc[seg.name][0]) for e in enc[seg.name]):
+                    out.append(('elemsize_mismatch', n, seg.name))
+            elif isinstance(seg, StructSeg):
+                out.extend(self.size_faults(seg.decl, vals[seg.name]))
+            elif isinstance(seg, OptSeg) and seg.inner[0] == 'struct' and vals[seg.name] is not None:
+                out.extend(self.size_faults(seg.inner[1], vals[seg.name]))
+        own = 0
+        for seg in plan:
+            if isinstance(seg, Chunk):
+                own += seg.nbytes
+                for it in seg.items:
+                    mx = (1 << it.width) - 1
+                    if it.kind == 'size':
+                        if it.target in ('_payload_', '_body_'):
+                            pseg = [s for s in plan if isinstance(s, PayloadSeg)][0]
+                            v = payload_len + pseg.modifier
+                        else:
+                            aseg = [s for s in plan if isinstance(s, ArraySeg) and s.name == it.target][0]
+                            v = sum(len(e) for e in enc[it.target]) + (aseg.shape[1] if aseg.shape[0] == 'size' else 0)
+                        if v > mx:
+                            out.append(('size', n, it.target))
+                    elif it.kind == 'count' and len(vals[it.target]) > mx:
+                        out.append(('count', n, it.target))
+                    elif it.kind == 'elemsize' and enc[it.target] and len(enc[it.target][0]) > mx:
+                        out.append(('elemsize', n, it.target))
+                    elif it.kind == 'flag':
+                        want = set()
+                        for fid, cv in it.opts:
+                            want.add(cv if vals[fid] is not None else 1 - cv)
+                        if len(want) > 1:
+                            out.append(('flag', n, it.name))
+        # the encoded length of this level becomes the parent's payload length
+        payload_len = len(self.encode_fields(n, _with_constraints(self, name, vals), [0] * payload_len))
+    return out
+
+
+def _with_constraints(self, name, vals):
+    full = dict(vals)
+    for k, v in self.all_constraints(name).items():
+        full[k] = self.constraint_value(name, k, v)
+    return full
+
+
+Model.min_len = _min_len
+Model.size_faults = _size_faults
